@@ -215,6 +215,9 @@ class Script(object):
         sx.assume(sx.all([(cs[0] & 0x20) == 0, (cs[1] & 0xF0) == 0,
                           cs[2] == 0, (cs[3] & 0x7F) == 0]),
                   "RC-S380 TgCommRF communication status: only the 12 bits named in rcs380.CommunicationError.err2str may be set (target mode)")
+        if self.csbits < 12:
+            sx.assume((cs[1] & 0x0B) == 0,
+                      "quick tier: RC-S380 TgCommRF status bits 8, 9, 11 clear (CRYPTO1, RFCA, TRANSMIT_TIMEOUT)")
         return cs
 
 
@@ -258,7 +261,7 @@ FAULTS = {
 }
 
 
-def exchange(sx, driver, kind, fault, nmax=6, plen=3):
+def exchange(sx, driver, kind, fault, nmax=6, plen=3, csbits=12):
     crcref.install_summary(sx)
     dev, link = make_device(sx, driver)
     clf = make_frontend(dev)
@@ -266,10 +269,20 @@ def exchange(sx, driver, kind, fault, nmax=6, plen=3):
     clf.target = target
     f = None
     if fault != 'none':
-        fk, arg = sx.pick("fault", FAULTS[fault])
+        choices = FAULTS[fault]
+        if kind == 'tt1-read8':
+            # the received FIFO bytes are turned into text ("{:08b}".format);
+            # symbolic bytes cannot follow there: no arbitrary frames here
+            choices = [c for c in choices if c[0] != 'garble']
+        fk, arg = sx.pick("fault", choices)
         at = sx.pick("at", list(range(nmax)))
+        if fk == 'garble' and MODEL[driver] == 'rcs380' and kind not in INITIATOR:
+            # target mode formats the communication status with str() (a dict
+            # lookup that enumerates it): garble the 10 bytes before it only
+            arg = 10
         f = Fault(at, fk, ERRNOS[arg] if fk in 'war' else arg)
     sc = Script(sx, driver, kind, symbolic=(f is None), plen=plen)
+    sc.csbits = csbits
     link.begin(chip=sc.rcs if MODEL[driver] == 'rcs380' else sc.pn, fault=f)
     tag = "%s:%s:%s" % ("initiator" if kind in INITIATOR else "target",
                         driver, kind)
@@ -535,8 +548,8 @@ QUICK = {
     # driver: {kind: fault classes}; the full product runs in the thorough tier
     'pn532': None,          # everything
     'rcs380': None,
-    'pn533': {'tt2': 'nif', 'tt1': 'n', 'tt1-read8': 'n', 'ltt2': 'n', 'ltt3': 'nif'},
-    'pn531': {'tt2': 'nif', 'ttf': 'n', 'ldep': 'n', 'ltt3': 'n'},
+    'pn533': {'tt2': 'nif', 'tt1': 'n', 'ltt2': 'n', 'ltt3': 'n'},
+    'pn531': {'tt2': 'nif', 'ttf': 'n', 'ldep': 'n', 'ltt3': 'nif'},
     'rcs956': {'tt2': 'nif', 'tt1': 'n', 'ttb': 'n', 'ltt2': 'n'},
     'acr122': {'tt2': 'nif', 'ttb': 'n', 'dep-passive': 'n'},
     'arygonA': {'tt2': 'ni'},
@@ -563,9 +576,12 @@ def partitions(tier):
                 plen = 3
                 if k == 'tt2':
                     plen = 4            # two data bytes + CRC_A
+                if q and d == 'rcs380' and k == 'ldep' and f == 'none':
+                    continue            # same host command as ltt2
                 parts.append(dict(name="%s:%s:%s" % (d, k, f), fn="exchange",
                                   params=dict(driver=d, kind=k, fault=f,
-                                              nmax=nmax, plen=plen)))
+                                              nmax=nmax, plen=plen,
+                                              csbits=9 if q else 12)))
             if k == 'tt2' and 'n' in sel:
                 parts.append(dict(name="%s:%s:acknak" % (d, k), fn="exchange",
                                   params=dict(driver=d, kind=k, fault='none',
